@@ -43,6 +43,16 @@ type syncHarness struct {
 	mnc      *nats.Conn
 	m        *client.Manager[client.Sync]
 	done     chan error
+	// passes counts catch-up passes the sync client started over the link: each begins by asking the upstream for the
+	// device ("nodes.all.<device>" on the connection to "up"); the client runs them one after the other
+	passes   int
+	passSubj string
+}
+
+func (h *syncHarness) observe(ev nats.BusEvent) {
+	if ev.Kind == "route" && ev.Conn != nil && ev.Conn.Host == "up" && ev.Op != nil && ev.Op.Subject == h.passSubj {
+		h.passes++
+	}
 }
 
 func (h *syncHarness) remoteConn() *nats.Conn {
@@ -340,6 +350,11 @@ func runC02(s *Sim) {
 		}
 	}
 	s.DelayPM = cfg.DelayPM
+	if cfg.Phased {
+		// the phases before the outage rely on the real-time path having delivered (the deletions above all: catch-up does
+		// not carry them, F-C02-delete-not-synced); injected stalls begin with the outage
+		s.DelayPM = 0
+	}
 	up := s.NewInstance("up", "")
 	down := s.NewInstance("down", "")
 	if s.Failed() {
@@ -352,6 +367,8 @@ func runC02(s *Sim) {
 	}
 	// the two stores' own rebroadcast/reply monitors stay on; C06's "payload" clause compares what was written
 	dev := down.RootID
+	h.passSubj = "nodes.all." + dev
+	s.BusObservers = append(s.BusObservers, h.observe)
 	var err error
 	h.mnc, err = nats.Connect(down.URL(), nats.Name("mgr"))
 	if err != nil {
@@ -494,6 +511,7 @@ func runC02(s *Sim) {
 		// phase B: outage
 		kind := wl.Draw(2)
 		add(actD, []string{"outage: sync disabled", "outage: link down"}[kind], func() {
+			s.DelayPM = cfg.DelayPM
 			if kind == 0 {
 				disabled = true
 				s.Fault("sync-disable")
@@ -717,9 +735,15 @@ func runC02(s *Sim) {
 	}
 	// catch-up may need one pass per level of the tree: let sync passes run until both sides have stopped changing for
 	// two consecutive periods (at least 4, at most 40 periods), then compare
+	// A window counts towards stability only if a pass began in it: a pass that sits in a request whose reply the outage
+	// took (20 s) leaves the state just as still, and the property speaks of the link being up *through* catch-up. Without
+	// passes the loop runs to its bound (40 periods and 150 s) and the comparison is made all the same.
 	var last uint64
 	stable := 0
-	for i := 0; i < 40 && !s.Failed(); i++ {
+	tailStart := time.Now()
+	passes0 := h.passes
+	for i := 0; (i < 40 || time.Since(tailStart) < 150*time.Second) && !s.Failed(); i++ {
+		before := h.passes
 		s.AdvanceIdle(time.Duration(cfg.Period)*time.Second + 500*time.Millisecond)
 		du, e1 := up.Dump()
 		dd, e2 := down.Dump()
@@ -728,13 +752,13 @@ func runC02(s *Sim) {
 			return
 		}
 		d := mix(stateDigest(du), stateDigest(dd))
-		if d == last {
-			stable++
-		} else {
+		if d != last {
 			stable = 0
+		} else if h.passes > before {
+			stable++
 		}
 		last = d
-		if stable >= 2 && i >= 3 {
+		if stable >= 2 && i >= 3 && h.passes-passes0 >= 3 {
 			break
 		}
 	}
@@ -742,7 +766,7 @@ func runC02(s *Sim) {
 		return
 	}
 	if stable < 2 {
-		s.Probe("not-stable-after-40-periods")
+		s.Probe("not-stable-at-tail-bound")
 	}
 	h.compare(dev)
 	if s.Failed() {
